@@ -46,6 +46,7 @@ MinVal == CHOOSE v \in Vals : \A u \in Vals : v <= u
 Huge == 2000000000
 FinsFor(m) == {<<"none", 0>>, <<"last", 0>>, <<"fold", 0>>} \cup {<<"nth", j>> : j \in {0, 1, m, m + 2, Huge}}
               \cup {<<"any", 0>>, <<"any", m>>, <<"all", 1>>, <<"position", 1>>, <<"find", 1>>, <<"find", m>>}
+              \cup {<<"for_each", 0>>, <<"reduce", 0>>, <<"collect", 0>>, <<"min_by", 0>>, <<"max_by", 0>>, <<"find_map", 0>>, <<"find_map", 1>>}
 
 CoreOps(ts) ==
   {[name |-> nm, k |-> ArgK(1, c, r), v |-> ArgV(1, v)] :
